@@ -249,6 +249,30 @@ Definition c06_ok (k : option nat) (ff : bool) (items : list item) (h : hist) : 
   && contract_prefix (events_of h).
 
 (* ---------------- C07: serial isolation ---------------- *)
+(* C07 on the event stream alone (the statement proved of every run of the model in Proofs/SchedP11.v, and judged
+   on every observed run): an attempt of a serial scenario starts only when no attempt is open, no attempt starts
+   while a serial one is open, every scenario event emitted while a serial attempt is open is its own.
+   A state transformer over the list of scenario ids with an open attempt. *)
+Fixpoint remove_one (x : N) (l : list N) : list N :=
+  match l with [] => [] | y :: t => if y =? x then t else y :: remove_one x t end.
+Definition own_or_plain (ser : N -> bool) (s : N) (open : list N) : bool :=
+  forallb (fun y => negb (ser y) || (y =? s)) open.
+Definition iso_step (ser : N -> bool) (open : list N) (e : ev) : option (list N) :=
+  match e with
+  | EvScen _ _ s _ ScStarted =>
+    if (if ser s then is_nil open else negb (existsb ser open)) then Some (s :: open) else None
+  | EvScen _ _ s _ ScFinished => if own_or_plain ser s open then Some (remove_one s open) else None
+  | EvScen _ _ s _ _ => if own_or_plain ser s open then Some open else None
+  | _ => Some open
+  end.
+Fixpoint iso_run (ser : N -> bool) (open : list N) (es : list ev) : option (list N) :=
+  match es with
+  | [] => Some open
+  | e :: t => match iso_step ser open e with Some o => iso_run ser o t | None => None end
+  end.
+Definition iso_walk (ser : N -> bool) (es : list ev) : bool := is_some (iso_run ser [] es).
+
+
 Definition serial_ids (items : list item) : list N :=
   flat_map (fun f => map ss_id (filter ss_serial (sf_scens f))) (feature_items items).
 (* `cur`: the serial scenario currently between Started and Finished, if any *)
@@ -270,7 +294,8 @@ Fixpoint c07_walk (ser : list N) (inflight : list N) (cur : option N) (h : hist)
     | _ => c07_walk ser inflight cur t
     end
   end.
-Definition c07_ok (items : list item) (h : hist) : bool := c07_walk (serial_ids items) [] None h.
+Definition c07_ok (items : list item) (h : hist) : bool :=
+  c07_walk (serial_ids items) [] None h && iso_walk (fun x => memN x (serial_ids items)) (events_of h).
 
 (* ---------------- C08: fail-fast ---------------- *)
 (* after the first final failure: no loop turn dispatches anything; fewer than K attempts still begin;
